@@ -53,6 +53,11 @@ func defectCatalogue() []defect {
 		{"cname-prefix", true, func(c *Ctx, s *testService, r *recipe, d time.Duration) {
 			r.authCName = append(append([]string{}, r.cname...), "admin")
 		}},
+		{"cname-boundary", true, func(c *Ctx, s *testService, r *recipe, d time.Duration) {
+			// same "/"-joined string, different components
+			r.cname = []string{"host", "client.test.gokrb5"}
+			r.authCName = []string{"host/client.test.gokrb5"}
+		}},
 		{"crealm-mismatch", true, func(c *Ctx, s *testService, r *recipe, d time.Duration) { r.authCRealm = "EVIL.REALM" }},
 		{"ticket-usage", true, func(c *Ctx, s *testService, r *recipe, d time.Duration) { r.tktUsage = 3 }},
 		{"auth-usage", true, func(c *Ctx, s *testService, r *recipe, d time.Duration) { r.authUsage = 7 }},
@@ -284,7 +289,7 @@ func c01(c *Ctx) {
 // defects that write the same recipe field override each other: such pairs are skipped
 var defectField = map[string]string{"start-outside": "start", "start-inside": "start", "start-absent": "start", "end-outside": "end", "end-inside": "end",
 	"flip-ticket": "tktcipher", "trunc-ticket": "tktcipher", "flip-auth": "authcipher", "trunc-auth": "authcipher",
-	"cname-mismatch": "authcname", "cname-prefix": "authcname", "multi-component-client": "authcname", "invalid-flag": "flags", "other-flags": "flags",
+	"cname-mismatch": "authcname", "cname-prefix": "authcname", "cname-boundary": "authcname", "multi-component-client": "authcname", "invalid-flag": "flags", "other-flags": "flags",
 	"ctime-late": "ctime", "ctime-early": "ctime", "ctime-inside": "ctime", "wrong-key": "tktkey", "auth-key": "authkey"}
 
 func defectIndex(cat []defect, name string) int {
